@@ -1,6 +1,6 @@
 /-
   UVerif.Model.ConvPosInt — the posit ↔ integer adapters `convert_p2i` / `convert_i2p`
-  (include/universal/adapters/adapt_integer_and_posit.hpp:35-89), transcribed branch by branch on top of
+  (include/universal/adapters/adapt_integer_and_posit.hpp:35-101, after the repairs of the repair wave), transcribed branch by branch on top of
   the posit model (UVerif.Model.Posit: `extractFields`, `decode`, `convert`) and the limb model of
   `integer<ibits, bt, IntegerNumber>` (UVerif.Model.Integer).  `w` = bits in a block, `ibits` = integer size.
   Core Lean only.
@@ -21,62 +21,59 @@ def positScale (n es p : Nat) : Int := (extractFields n es (p % 2 ^ n)).scale
     a `bitblock<fbits+1>` = 2^fbits + fraction. -/
 def significant (n es p : Nat) : Nat := 2 ^ fbitsOf n es + (decode n es p).frac
 
-/-- `convert_p2i` (adapt_integer_and_posit.hpp:35-65). -/
+/-- the `_scale ≥ 0` part of `convert_p2i` before the sign is applied (adapt_integer_and_posit.hpp:43-63); `sig` = significand
+    with the hidden bit (`fb + 1` bits), `sc` = scale -/
+def p2iMag (w ibits fb sig : Nat) (sc : Int) : List Nat :=
+  if sc = 0 then Integer.convertSigned w ibits 1                       -- `v = 1`
+  else
+    let shift : Int := sc - (fb : Int)
+    -- `lsb = shift < 0 ? -shift : 0`: the bits of the significand below the radix point are not copied
+    let lsb : Nat := if shift < 0 then (-shift).toNat else 0
+    -- `v.clear(); msb = min(v.nbits, fbits+1-lsb); for (i = msb-1 … 0) v.setbit(i, significant[i + lsb])`
+    let msb := if ibits < fb + 1 - lsb then ibits else fb + 1 - lsb
+    let v0 := ofNat w (nrBlocks w ibits) ((sig >>> lsb) % 2 ^ msb)
+    -- `if (shift > 0) v <<= shift`
+    if shift > 0 then Integer.shl w ibits v0 shift else v0
+
+/-- `convert_p2i` (adapt_integer_and_posit.hpp:35-69). -/
 def p2i (w ibits n es p : Nat) : List Nat :=
   let p := p % 2 ^ n
   let sc := positScale n es p
-  if sc < 0 then Integer.convertSigned w ibits 0                       -- `v = 0`
-  else if sc = 0 then Integer.convertSigned w ibits 1                  -- `v = 1` (whatever the sign)
+  -- `if (p.iszero() || p.isnar() || _scale < 0) { v = 0; return; }`
+  if p = 0 ∨ p = 2 ^ (n - 1) ∨ sc < 0 then Integer.convertSigned w ibits 0
   else
-    let fb := fbitsOf n es
-    let sig := significant n es p
-    -- `v.clear(); msb = min(v.nbits, fbits+1); for (i = msb-1 … 0) v.setbit(i, significant[i])`: the LOW msb bits
-    let msb := if ibits < fb + 1 then ibits else fb + 1
-    let v0 := ofNat w (nrBlocks w ibits) (sig % 2 ^ msb)
-    -- `v <<= _scale - fbits` (a negative count is the arithmetic `>>=`)
-    let v1 := Integer.shl w ibits v0 (sc - (fb : Int))
-    -- `if (p.isneg()) { v.flip(); v += 1; }`
-    if p.testBit (n - 1) then Integer.add w ibits (Integer.flip w ibits v1) (Integer.convertSigned w ibits 1) else v1
+    let v := p2iMag w ibits (fbitsOf n es) (significant n es p) sc
+    -- `if (p.isneg()) { v.flip(); v += 1; }` — after both branches
+    if p.testBit (n - 1) then Integer.add w ibits (Integer.flip w ibits v) (Integer.convertSigned w ibits 1) else v
 
-/-- the loop of `scale(const integer&)` (integer_impl.hpp:57-61): `while (v > 1) { ++scale; v >>= 1; }`;
-    `v > 1` is `operator<(integer(1), v)`. `none` = the loop does not terminate: after `n` arithmetic shifts `v` is a
-    fixed point of `>>= 1`, so a loop that is still running after `n + 1` rounds runs forever. -/
-def scaleLoop (w n : Nat) : Nat → List Nat → Option Nat
-  | 0, _ => none
-  | fuel + 1, v =>
-    if Integer.lt w n (Integer.convertSigned w n 1) v then (scaleLoop w n fuel (Integer.shr w n v 1)).map (· + 1)
-    else some 0
-
-/-- `scale(const integer&)` (integer_impl.hpp:46-63) -/
-def intScale (w n : Nat) (a : List Nat) : Option Nat :=
-  if Integer.sign w n a then
-    let v := Integer.twosC w n a
-    if Integer.eq v a then some (n - 1) else scaleLoop w n (n + 2) v
-  else scaleLoop w n (n + 2) a
-
-/-- outcome of `convert_i2p` -/
+/-- outcome of `convert_i2p` as the harness reports it. The repaired routine always returns an encoding: it no longer calls
+    `scale(const integer&)` (whose loop did not terminate on multi-block `uint64_t`: `hang`) and no longer indexes position −1
+    of the `bitblock<nbits>` (std::out_of_range: `exc`); the two other outcomes remain in the protocol so that a recurrence is
+    reported as a difference to the model. -/
 inductive I2P
-  | hang                 -- `scale(w)` never returns
-  | exc                  -- `bitblock<nbits>::set(size_t(-1), …)` throws std::out_of_range
+  | hang                 -- the conversion did not return within the harness's time limit
+  | exc                  -- the conversion threw std::out_of_range
   | enc (r : Nat)        -- the posit encoding
 deriving Repr, DecidableEq
 
-/-- `convert_i2p` (adapt_integer_and_posit.hpp:69-89). The fraction loop writes bit `msb-1-j` of |w| to position
-    `nbits-1-j` of a `bitblock<nbits>`; the `(nbits+1)`-th iteration indexes position −1 and std::bitset throws. -/
+/-- the fraction loop of `convert_i2p` (adapt_integer_and_posit.hpp:87-98): bit `msb-1-j` of |w| goes to position `nbits-1-j` of
+    a `bitblock<nbits>` while `j < nbits`; every further (lower) bit that is set sets position 0 — a sticky bit. `m` = msb. -/
+def i2pFrac (n m mag : Nat) : Nat :=
+  if m ≤ n then (mag % 2 ^ m) <<< (n - m) else stickyShr (mag % 2 ^ m) (m - n)
+
+/-- `convert_i2p` (adapt_integer_and_posit.hpp:73-101) after `sign = w < 0` has been evaluated (the only place where the
+    number type of the integer matters): `w == 0`, `w2 = sign ? twosComplement(w) : w`, `msb = findMsb(w2)` (−1 for zero),
+    `_scale = msb`, the fraction loop, `value<nbits>::set`, `posit::operator=(value)` = `Posit.convert`. -/
+def i2pCore (w ibits n es : Nat) (sign : Bool) (a : List Nat) : I2P :=
+  let isZero := Integer.eq a (Integer.convertSigned w ibits 0)         -- `w == 0`
+  let w2 := if sign then Integer.twosC w ibits a else a
+  let msb := msbPos w w2
+  .enc (Posit.convert n es { sign := sign, scale := msb, frac := i2pFrac n msb.toNat (toNat w w2), fb := n,
+                             zero := isZero, inf := false })
+
+/-- `convert_i2p` for IntegerNumber: `w < 0` = `operator<(w, integer(0))` -/
 def i2p (w ibits n es : Nat) (a : List Nat) : I2P :=
-  let zero := Integer.convertSigned w ibits 0
-  let sign := Integer.isneg w ibits a                 -- `w < 0` = `operator<(w, integer(0))`
-  let isZero := Integer.eq a zero                     -- `w == 0`
-  match intScale w ibits a with
-  | none => .hang
-  | some sc =>
-    let w2 := if sign then Integer.twosC w ibits a else a
-    let msb := msbPos w w2                            -- `findMsb(w2)`, −1 for zero
-    if msb > (n : Int) then .exc
-    else
-      let m := msb.toNat
-      let frac := (toNat w w2 % 2 ^ m) <<< (n - m)
-      .enc (Posit.convert n es { sign := sign, scale := (sc : Int), frac := frac, fb := n, zero := isZero, inf := false })
+  i2pCore w ibits n es (Integer.isneg w ibits a) a
 
 def I2P.show : I2P → String
   | .hang => "hang"
@@ -99,8 +96,7 @@ def rti (w ibits n es : Nat) (a : List Nat) : I2P × Option (List Nat) :=
 
 `convert_p2i` uses only `operator=(int)`, `clear`, `setbit`, `<<=`, `flip`, `+=`, none of which looks at the number type (in the
 default build without INTEGER_THROW_ARITHMETIC_EXCEPTION), so `p2i` above is also the model for the unsigned number types.
-`convert_i2p` differs through `operator<`: `w < 0`, and `v > 1` inside `scale(integer)`; `sign()` is still bit `nbits-1`
-and `>>=` still sign-extends. -/
+`convert_i2p` differs through `operator<` in `w < 0` only. -/
 
 /-- `operator<` for WholeNumber / NaturalNumber (integer_impl.hpp:1702-1708): block scan from the top,
     `if (l == r) continue; if (l < r) return true;` — a block with `l > r` does NOT end the scan. Lists are most significant first. -/
@@ -110,35 +106,9 @@ def ltWholeRev : List Nat → List Nat → Bool
 
 def ltWhole (a b : List Nat) : Bool := ltWholeRev a.reverse b.reverse
 
-def scaleLoopWhole (w n : Nat) : Nat → List Nat → Option Nat
-  | 0, _ => none
-  | fuel + 1, v =>
-    if ltWhole (Integer.convertSigned w n 1) v then (scaleLoopWhole w n fuel (Integer.shr w n v 1)).map (· + 1)
-    else some 0
-
-/-- `scale(const integer&)` for the unsigned number types: `i.sign()` is the top bit all the same, so a value ≥ 2^(nbits-1)
-    is two's-complemented before its bits are counted -/
-def intScaleWhole (w n : Nat) (a : List Nat) : Option Nat :=
-  if Integer.sign w n a then
-    let v := Integer.twosC w n a
-    if Integer.eq v a then some (n - 1) else scaleLoopWhole w n (n + 2) v
-  else scaleLoopWhole w n (n + 2) a
-
-/-- `convert_i2p` for WholeNumber / NaturalNumber -/
+/-- `convert_i2p` for WholeNumber / NaturalNumber: `w < 0` is the block scan (never true against zero) -/
 def i2pWhole (w ibits n es : Nat) (a : List Nat) : I2P :=
-  let zero := Integer.convertSigned w ibits 0
-  let sign := ltWhole a zero                          -- `w < 0`: never true
-  let isZero := Integer.eq a zero
-  match intScaleWhole w ibits a with
-  | none => .hang
-  | some sc =>
-    let w2 := if sign then Integer.twosC w ibits a else a
-    let msb := msbPos w w2
-    if msb > (n : Int) then .exc
-    else
-      let m := msb.toNat
-      let frac := (toNat w w2 % 2 ^ m) <<< (n - m)
-      .enc (Posit.convert n es { sign := sign, scale := (sc : Int), frac := frac, fb := n, zero := isZero, inf := false })
+  i2pCore w ibits n es (ltWhole a (Integer.convertSigned w ibits 0)) a
 
 /-- number type of the integer: `false` = IntegerNumber, `true` = WholeNumber / NaturalNumber -/
 def i2pK (unsignedKind : Bool) (w ibits n es : Nat) (a : List Nat) : I2P :=
